@@ -27,6 +27,24 @@ emitter), Trace_ConvertGraph.tla (judge of recorded executions).
    into the event; that the tree used is the spec's tree is re-checked by TLC ("provenance_echo").
    Also recorded: conversion_graph for all (origin, target, scatter, mode) and the graph
    factories.  Trace_ConvertGraph judges every event.
+4. Hardening round (HARDENING.md):
+   * layouts / listing order / single elements (items 2, 3, 7, 8): every case is built in one of three
+     layout classes (textbook; single-pixel = all geometry 0-d, data 1-d or spectra sharing the geometry;
+     per-pixel = also source / sample position, incident beam, L1, incident energy per spectrum), with
+     1..3 spectra and origin points, data stored as [spectrum, origin] or [origin, spectrum], a 2-d
+     origin coordinate stored in either dimension order, coordinates inserted in a random order, a
+     Dataset of one or two items (lib_convert.case_layout);
+   * supplied coordinates are compared with a deep snapshot taken before the call (item 9/11: the result
+     shares buffers with the operands, an aliasing view hides in-place changes), each container has its
+     own buffers;
+   * history (item 6, spec/conv/ConvertGraphHistory.tla: the answer is a function of the arguments):
+     conversion_graph is requested over its complete argument space three times (enumeration order,
+     reversed, seeded shuffle), the caller clearing every answer; deduce_conversion_graph / convert
+     are called in either order on fresh objects; at the end a sample of the cases is executed again
+     in the main process (which by then has seen every other call), in another order and with the
+     opposite deduce / convert order, judged again by TLC and compared with the first execution;
+   * non-finite values, a result that is not a data array / dataset, and exceptions of any class are
+     verdicts with their own clause (non_finite_value_*, derivable_but_malformed_*, ...), never a crash.
 """
 
 from __future__ import annotations
@@ -45,9 +63,11 @@ from .. import lib_convert as L
 RULE = ('configuration = (origin, target, scatter, 11-bit mask of supplied geometry/energy coordinates, '
         'aux inputs present) with target != origin; supplied values are independent random numbers '
         '(lengths 0.5..14 m, tof 1e4..5e4 us, E 20..100 meV, two_theta 0.2..2.9 rad) so that every '
-        'alternative derivation gives a different value; non-trivial = the target is derivable and at '
-        'least one coordinate has to be computed')
+        'alternative derivation gives a different value; every case in one of three layout classes (textbook / single '
+        'pixel / per-pixel beam geometry) with 0..3 spectra and origin points; non-trivial = the target is derivable '
+        'and at least one coordinate has to be computed')
 
+HNEG = {'kept_graph_forgets_target': 'AnswerIsAFunctionOfTheArguments', 'table_handed_out': 'TablesIntact'}
 NEG = ['recompute:Precedence', 'swap_modes:OutcomeIsDeclarative', 'both_energies_direct:NoWrongMode',
        'elastic_energy_with_inelastic:NoWrongMode', 'noscatter_ignored:NoWrongMode',
        'used_full_graph:GraphReportedIsUsed', 'first_input_only:Sound', 'ignore_supplied_target:Complete']
@@ -97,7 +117,7 @@ class _Intern:
 
 
 def _out_class(s):
-    return s if s in ('ok', 'RuntimeError') else 'other'
+    return s if s in ('ok', 'RuntimeError', 'malformed') else 'other'
 
 
 def _static_events(ctx, tab):
@@ -119,29 +139,35 @@ def _static_events(ctx, tab):
     }
     for name, f in factories.items():
         try:
-            gid = tab.get('graph', L.describe_graph(f()))
+            g = f()
+            desc = L.describe_graph(g)
+            g.clear()   # what users do with these dicts (del graph[...]); must not reach the module-level tables
+            if L.describe_graph(f()) != desc:
+                ctx.violation(f'graph factory {name}: mutating the returned graph changes later results', {'name': name})
+            gid = tab.get('graph', desc)
         except Exception as e:  # noqa: BLE001
             gid = -2
             ctx.extra.setdefault('exceptions', []).append(f'{name}: {e!r}'[:200])
         evs.append({'ev': 'factory', 'tid': 0, 'name': name, 'g': gid})
-    for o in L.ORIGINS:
-        for t in TARGETS:
-            if t == o:
-                continue
-            for s in (True, False):
-                for mode in MODES:
-                    try:
-                        g = scn.conversion_graph(o, t, s, mode)
-                        desc = L.describe_graph(g)
-                        g.clear()  # must not reach the module-level tables
-                        if L.describe_graph(scn.conversion_graph(o, t, s, mode)) != desc:
-                            ctx.violation('conversion_graph: mutating the returned graph changes later results',
-                                          {'o': o, 't': t, 's': s, 'mode': mode})
-                        gid = tab.get('graph', desc)
-                    except Exception as e:  # noqa: BLE001
-                        gid = -2
-                        ctx.extra.setdefault('exceptions', []).append(f'conversion_graph{(o, t, s, mode)}: {e!r}'[:200])
-                    evs.append({'ev': 'cgraph', 'tid': 0, 'o': o, 't': t, 's': s, 'mode': mode, 'g': gid})
+    reqs = [(o, t, s, mode) for o in L.ORIGINS for t in TARGETS if t != o for s in (True, False) for mode in MODES]
+    shuffled = list(reqs)
+    ctx.rng.shuffle(shuffled)
+    # the complete argument space three times, in different orders (spec/conv/ConvertGraphHistory.tla:
+    # the answer is a function of the arguments); the caller clears every answer
+    for hist, seq in (('first', reqs), ('reversed', reqs[::-1]), ('shuffled', shuffled)):
+        for o, t, s, mode in seq:
+            try:
+                g = scn.conversion_graph(o, t, s, mode)
+                desc = L.describe_graph(g)
+                g.clear()  # must not reach the module-level tables
+                if L.describe_graph(scn.conversion_graph(o, t, s, mode)) != desc:
+                    ctx.violation('conversion_graph: mutating the returned graph changes later results',
+                                  {'o': o, 't': t, 's': s, 'mode': mode})
+                gid = tab.get('graph', desc)
+            except Exception as e:  # noqa: BLE001
+                gid = -2
+                ctx.extra.setdefault('exceptions', []).append(f'conversion_graph{(o, t, s, mode)}: {e!r}'[:200])
+            evs.append({'ev': 'cgraph', 'tid': 0, 'o': o, 't': t, 's': s, 'mode': mode, 'g': gid, 'hist': hist})
     return evs
 
 
@@ -190,8 +216,22 @@ def _run_negs(ctx):
         except Exception as e:  # noqa: BLE001
             errs.append(f'coverage: {e}')
 
+    def history():
+        # the process-lifetime model: answers are a function of the arguments; two negative controls
+        try:
+            r = L.spaced_tlc(ctx, 'conv/MC_ConvertGraphHistory.tla', 'MC_ConvertGraphHistory.cfg', workers=1, timeout=600)
+            require_ok(ctx, r, 'ConvertGraphHistory model')
+            for name, want in HNEG.items():
+                r = L.spaced_tlc(ctx, 'conv/MC_ConvertGraphHistory.tla', f'Neg_ConvertGraphHistory_{name}.cfg', workers=1,
+                                 expect_error=True, timeout=600)
+                if want not in r.error:
+                    errs.append(f'negative control {name}: expected {want} to be violated, got: {r.error}')
+        except Exception as e:  # noqa: BLE001
+            errs.append(f'history model: {e}')
+
     threads = [threading.Thread(target=one, args=(i, n.split(':')[0])) for i, n in enumerate(NEG)]
     threads.append(threading.Thread(target=coverage))
+    threads.append(threading.Thread(target=history))
     for t in threads:
         t.start()
     for t in threads:
@@ -245,9 +285,10 @@ def _trace_selftest(ctx, tab, events, rejected):
     ctx.extra['trace_selftest'] = f'{len(expect)} corrupted events rejected, {len(sl) - len(expect)} accepted'
 
 
-def _key(c, clause):
+def _key(c, clause, lay='canon'):
     aux = ', aux inputs present' if c['x'] else ''
-    return f"convert({c['o']} -> {c['t']}, scatter={c['s']}{aux}): {clause}"
+    layout = '' if lay == 'canon' else f', {lay} layout'      # the textbook layout keeps the historical keys
+    return f"convert({c['o']} -> {c['t']}, scatter={c['s']}{aux}{layout}): {clause}"
 
 
 def run(ctx):
@@ -263,7 +304,12 @@ def run(ctx):
                'accepted as well as refusing (DESIGN 3.4)')
     ctx.assume('value flag: numpy float64 reference formulas, 1e-9 relative (norm-wise for vectors and '
                'matrices); rounding-level agreement of the kernels is decided by C01/C03/C05')
-    ctx.assume('containers: DataArray and Dataset with two items; pulse_time is a float64 time in us')
+    ctx.assume('containers: DataArray and Dataset with one or two items; pulse_time is a float64 time in us')
+    ctx.assume('layouts: textbook (beam geometry 0-d, detector geometry per spectrum), single pixel (all geometry 0-d), '
+               'or normally-scalar coordinates per spectrum as well; 0..3 spectra / origin points; always '
+               'dims(incident beam) <= dims(scattered beam) - a beam per spectrum meeting one single scattered beam is '
+               'refused by the two_theta kernel with a DimensionError, which is a refusal outside the weakest reading of '
+               'the quantifier and is not judged')
 
     # ---- 1. design: TLC exhaustive + negative controls (concurrently with the emission)
     cfg = 'MC_ConvertGraph_thorough.cfg' if ctx.thorough else 'MC_ConvertGraph.cfg'
@@ -275,17 +321,30 @@ def run(ctx):
         except Exception as e:  # noqa: BLE001
             neg_err.append(e)
 
+    # the negative controls, the coverage run, the history model and the case emission (M1) run while the
+    # main model is being checked; they are joined where their results are needed
+    negt = threading.Thread(target=negs)
+    negt.start()
+    emitted = {}
+
+    def emit():
+        try:
+            emitted['cases'] = _emit_cases(ctx)
+        except Exception as e:  # noqa: BLE001
+            emitted['err'] = e
+
+    emt = threading.Thread(target=emit)
+    emt.start()
     res = L.spaced_tlc(ctx, 'conv/MC_ConvertGraph.tla', cfg, timeout=1500, coverage=False, workers=_tlc_workers())
     require_ok(ctx, res, 'ConvertGraph model')
     ctx.exhaustive = bool(ctx.thorough)
-    negt = threading.Thread(target=negs)
-    negt.start()
 
     # ---- 2. M1: TLC-emitted cases
-    cases = _emit_cases(ctx)
-    negt.join()
-    if neg_err:
-        raise neg_err[0] if isinstance(neg_err[0], MachineryError) else MachineryError(str(neg_err[0]))
+    emt.join()
+    if 'err' in emitted:
+        e = emitted['err']
+        raise e if isinstance(e, MachineryError) else MachineryError(repr(e))
+    cases = emitted['cases']
 
     # ---- 3. M2: run the real API (multiprocessing), record, let TLC judge
     lines = cases
@@ -301,9 +360,15 @@ def run(ctx):
     worst = 0.0
     nontriv = 0
     expected_counts = {'ok': 0, 'missing': 0, 'mode_error': 0}
+    layouts_seen = {}
     ok_pool = []           # a few accepted-looking answered events for the judge's self-test
+    first_obs = {}         # tid -> projected observation of the first execution (for the replay pass)
+    case_of = {}           # tid of a replay -> index into lines (first executions: tid - 1)
     tid = 0
     t0 = time.time()
+    n_replay = min(len(lines), 1200 if ctx.thorough else 260)
+    pick = sorted(ctx.rng.sample(range(len(lines)), n_replay))      # cases executed again at the end (3b)
+    picked = set(pick)
 
     def open_body():
         nonlocal cur, cur_n
@@ -311,10 +376,30 @@ def run(ctx):
         cur, cur_n = open(path, 'w'), 0
         bodies.append([path, 0])
 
+    def put(ev):
+        nonlocal cur_n
+        if cur_n >= per:
+            cur.close()
+            bodies[-1][1] = cur_n
+            open_body()
+        cur.write(json.dumps(ev) + '\n')
+        cur_n += 1
+
+    def event_of(r, gids, tid_, hist):
+        o, t, s, m, x, _expected, prov, g, copy_ok, da, ds, lay = r
+        ev = {'ev': 'convert', 'tid': tid_, 'o': o, 't': t, 's': s, 'm': m, 'x': x, 'hist': hist, 'lay': lay,
+              'pv': tab.get('pairs', prov), 'g': gids[g] if g >= 0 else g, 'copy': bool(copy_ok)}
+        for k, ob in (('da', da), ('ds', ds)):
+            ev[k] = {'out': _out_class(ob[0]), 'add': tab.get('names', ob[1]), 'val': bool(ob[2]),
+                     'same': bool(ob[3]), 'has': bool(ob[4]), 'fin': bool(ob[6])}
+        return ev
+
+    def projection(ev):
+        return {k: ev[k] for k in ('g', 'copy', 'da', 'ds')}
+
     open_body()
     for e in static:
-        cur.write(json.dumps(e) + '\n')
-        cur_n += 1
+        put(e)
     pool = mp.get_context('spawn').Pool(nproc) if nproc > 1 else None
     try:
         stream = pool.imap(L.run_cases, jobs, chunksize=1) if pool else map(L.run_cases, jobs)
@@ -323,22 +408,18 @@ def run(ctx):
             for r in part:
                 if r[0] == 'harness_error':
                     raise MachineryError(f'harness error on {r[1]}: {r[2]}')
-                o, t, s, m, x, expected, prov, g, copy_ok, da, ds = r
                 tid += 1
-                ev = {'ev': 'convert', 'tid': tid, 'o': o, 't': t, 's': s, 'm': m, 'x': x,
-                      'pv': tab.get('pairs', prov), 'g': gids[g] if g >= 0 else g, 'copy': bool(copy_ok)}
-                for k, ob in (('da', da), ('ds', ds)):
-                    ev[k] = {'out': _out_class(ob[0]), 'add': tab.get('names', ob[1]), 'val': bool(ob[2]),
-                             'same': bool(ob[3]), 'has': bool(ob[4])}
-                    if ob[0] == 'ok':
+                ev = event_of(r, gids, tid, 'first')
+                o, t, s, m, x, expected, prov = r[:7]
+                da, ds, lay = r[9], r[10], r[11]
+                for ob in (da, ds):
+                    if ob[0] == 'ok' and ob[2]:
                         worst = max(worst, ob[5])
-                if cur_n >= per:
-                    cur.close()
-                    bodies[-1][1] = cur_n
-                    open_body()
-                cur.write(json.dumps(ev) + '\n')
-                cur_n += 1
+                put(ev)
+                if tid - 1 in picked:
+                    first_obs[tid] = projection(ev)
                 expected_counts[expected] = expected_counts.get(expected, 0) + 1
+                layouts_seen[lay] = layouts_seen.get(lay, 0) + 1
                 nt = expected == 'ok' and len(prov) > 0
                 nontriv += nt
                 ctx.case(nontrivial_id=(o, t, s, m, x) if nt else None, n=2)
@@ -350,17 +431,46 @@ def run(ctx):
         if pool:
             pool.terminate()
             pool.join()
-    cur.close()
-    bodies[-1][1] = cur_n
     if tid != len(lines):
         raise MachineryError('lost results')
+    n_first = tid
+
+    # ---- 3b. replay pass (HARDENING item 6): a sample of the cases again, in this process (which has by
+    # now requested every graph three times and cleared the answers), geometry targets first and
+    # otherwise in reverse order, with the opposite deduce / convert order
+    heads = [json.loads(lines[i]) for i in pick]
+    geo = {'incident_beam', 'scattered_beam', 'L1', 'L2', 'two_theta', 'Ltotal'}
+    order = sorted(range(n_replay), key=lambda j: (heads[j]['t'] not in geo, -pick[j]))
+    part, graphs = L.run_cases(([lines[pick[j]] for j in order], ctx.seed, 'replay'))
+    gids = [tab.get('graph', g) for g in graphs]
+    history_dependent = 0
+    for j, r in zip(order, part):
+        if r[0] == 'harness_error':
+            raise MachineryError(f'harness error on replay of {r[1]}: {r[2]}')
+        tid += 1
+        ev = event_of(r, gids, tid, 'replay')
+        put(ev)
+        case_of[tid] = pick[j]
+        ctx.case(nontrivial_id=None, n=2)
+        if projection(ev) != first_obs[pick[j] + 1]:
+            history_dependent += 1
+            c = json.loads(lines[pick[j]])
+            ctx.violation(_key(c, 'the answer depends on the call history (replay at the end of the run differs)', r[11]),
+                          {'expected': c, 'first': first_obs[pick[j] + 1], 'replay': projection(ev), 'seed': ctx.seed})
+    cur.close()
+    bodies[-1][1] = cur_n
+    ctx.extra['replayed_in_another_order'] = n_replay
     ctx.extra['convert_wall_s'] = round(time.time() - t0, 1)
     ctx.extra['worst_relative_error_of_accepted_values'] = worst
     ctx.extra['configurations'] = len(lines)
+    ctx.extra['layout_classes'] = layouts_seen
     ctx.extra['distinct_reported_graphs'] = sum(1 for k in tab.ids if k[0] == 'graph')
     ctx.extra['outcomes_expected'] = expected_counts
     for e in sample_evs:
         ctx.sample(e)
+    negt.join()
+    if neg_err:
+        raise neg_err[0] if isinstance(neg_err[0], MachineryError) else MachineryError(str(neg_err[0]))
 
     # trace files: every chunk = all definitions + its body; chunks are validated concurrently
     defs_path = ctx.tmp / 'c02-defs.ndjson'
@@ -417,15 +527,15 @@ def run(ctx):
                 raise MachineryError(f'definition event rejected at line {line}: {clause}')
             if ev['ev'] == 'convert':
                 rejected.add(rtid)
-                c = json.loads(lines[rtid - 1])
+                c = json.loads(lines[case_of.get(rtid, rtid - 1)])
                 try:
-                    detail = L.run_case(c, ctx.seed)   # deterministic: re-run for the report
+                    detail = L.run_case(c, ctx.seed, ev['hist'])   # deterministic: re-run for the report
                 except Exception as e:  # noqa: BLE001
                     detail = {'rerun_failed': repr(e)}
-                ctx.violation(_key(c, clause), {
+                ctx.violation(_key(c, clause, ev['lay']), {
                     'expected': c, 'supplied': L.supplied(c['m']), 'clause': clause, 'event': ev,
                     'observed': detail, 'seed': ctx.seed,
-                    'reproduce': 'harness.lib_convert.run_case(expected, seed)'})
+                    'reproduce': f"harness.lib_convert.run_case(expected, seed, {ev['hist']!r})"})
             elif ev['ev'] == 'cgraph':
                 ctx.violation(f"conversion_graph({ev['o']}, {ev['t']}, scatter={ev['s']}, {ev['mode']}): {clause}",
                               {'event': ev, 'graph': graph_of.get(ev['g'])})
@@ -433,7 +543,16 @@ def run(ctx):
                 ctx.violation(f"graph factory {ev['name']}: {clause}", {'event': ev, 'graph': graph_of.get(ev['g'])})
             else:
                 raise MachineryError(f'unexpected rejected event {ev}: {clause}')
-    _trace_selftest(ctx, tab, ok_pool, rejected)
+    try:
+        _trace_selftest(ctx, tab, ok_pool, rejected)
+    except MachineryError:
+        if not (rejected or ctx.violations):
+            raise
+        ctx.extra['trace_selftest'] = 'inconclusive on a tree with violations'
+    except Exception as e:  # noqa: BLE001  (the self-test must never mask verdicts, item 11)
+        if not (rejected or ctx.violations):
+            raise MachineryError(f'trace self-test crashed: {e!r}') from e
+        ctx.extra['trace_selftest'] = 'inconclusive on a tree with violations'
     if nontriv == 0:
         raise MachineryError('vacuous run: no derivable configuration with computed coordinates')
 
@@ -458,8 +577,12 @@ META = {
             'recomputes a supplied coordinate, never mixes scattering modes and walks the reported graph. The same '
             'space (thorough) or a stratified sample (quick) is emitted by TLC with the expected outcome and '
             'provenance tree; the real convert / deduce_conversion_graph / conversion_graph are run on DataArrays and '
-            'Datasets with mutually inconsistent random coordinates, and TLC judges outcome class, set of added '
-            'coordinates, reported graph (keys, kernels, inputs), precedence and the value flag for every call.',
+            'Datasets with mutually inconsistent random coordinates (three layout classes, empty and single-element '
+            'axes, both storage orders), and TLC judges outcome class, set of added coordinates, reported graph (keys, '
+            'kernels, inputs), precedence (against a deep snapshot) and the value flag for every call; the argument '
+            'space of conversion_graph is requested three times in different orders and a sample of the cases is '
+            'replayed at the end of the run in another order (ConvertGraphHistory.tla: answers are a function of '
+            'the arguments).',
     'note': 'Trusted: TLC, scipp transform_coords, numpy; the value flag (1e-9 relative against independent float64 '
             'formulas evaluated along the spec provenance) is computed by the harness, TLC checks that the tree used '
             'is the spec tree. Only the exception class is compared. The rule tables in ConvertGraphDefs.tla are '
